@@ -103,3 +103,38 @@ prop(
     level_note="Trusted: Lean kernel; registry lab (arguments are Strings rendered by identity in the synthetic registration; ToString/Debug rendering by the macro, types/consts dispatch and the 'evaluated once, shared by all generic instantiations' clause need the generated-crate lab - only 'evaluated once per registered benchmark' is checked here). The TypeId check and the unchecked cast are exercised, not modelled.",
     trusted=REG_TRUST,
 )
+
+BENCH_LABS = [lab("bench-p250", 1500, 40000), lab("bench-p1", 700, 20000), lab("bench-p999", 700, 20000)]
+BENCH_TRUST = ["bench lab: real Bencher entry points over instrumented types under the virtual timestamp counter (hook H4; 1 tick = 1 ps, per-thread scripted clocks), global AllocProfiler; per-thread event traces and Stats compared with the model; cross-thread order is not predicted, only checked (C08 flags)"]
+
+prop("C01", ["DivanModel.Props.C01"], BENCH_LABS,
+     level_text="Theorems for every sample size, counter list, all 16 type shapes and both ownership modes: the calls of a sample are exactly call 0..s-1 in generation order; generation/counting precede the start timestamp; outputs and lent inputs are dropped exactly once after the end timestamp, output i directly before input i, identically on all three code paths; the slot protocol (write/read/borrow/drop-in-place) is UB-free for all 32 combinations and every prefix of it is (a panic can leak, never double-drop). The bench lab's driver replays exactly this trace model against the real event log (ids carried by instrumented values, thread index per event) for all six entry points, T up to 4, bench/test, explicit and tuned sizes, and scripted panics.",
+     level_note="Trusted: Lean kernel; bench lab. Undefined behaviour that leaves no trace in events (the MaybeUninit plumbing implementing the protocol) is checked by traces, not proved; Miri is a possible complement.",
+     trusted=BENCH_TRUST)
+
+prop("C02", ["DivanModel.Props.C02"], BENCH_LABS,
+     level_text="Theorems: with the calls removed the two timestamps of a sample are adjacent (only benchmarked calls are timed), generation/counting precede, snapshot and drops follow, for every size/shape/entry; the allocating events between tally clear and snapshot are exactly the calls (allocation window = timed window). The bench lab runs scripted allocations in generator, benchmarked function and destructors through the global AllocProfiler and compares the per-sample allocation figures in Stats (exact IEEE doubles) and the interleaving of clock reads with events.",
+     level_note="Trusted: Lean kernel; bench lab. The fences of time/fence.rs and out-of-order execution cannot be expressed by an executable model: program order only.",
+     trusted=BENCH_TRUST)
+
+prop("C03", ["DivanModel.Props.C03"], BENCH_LABS + [lab("reg", 800, 20000)],
+     level_text="Theorems on the round-loop model for every (n, s, T) and every clock history below max_time: s*T*ceil(n/T) calls, T*ceil(n/T) samples, ceil(n/T) rounds (n defaults to 100); test mode: one call per thread, nothing stored; n=0, s=0 or max_time=0: no call. The bench lab counts calls per thread and compares samples/iters; the registry lab checks the same through attribute/group/builder/CLI/environment settings.",
+     level_note="Trusted: Lean kernel; labs.", trusted=BENCH_TRUST)
+
+prop("C04", ["DivanModel.Props.C04"], BENCH_LABS,
+     level_text="Theorems for every history of clock readings (non-monotone, zero, huge): the loop condition is literally 'elapsed < max_time and (samples missing or elapsed < min_time)'; max_time has priority also when min_time > max_time; the executed round count is exactly the least one at which the condition fails; elapsed after a round is the latest end timestamp since the initial start, or with skip_ext_time the sum of the slowest timed sections counted >= 1 ns each; max_time = 0 runs nothing. The bench lab scripts generation/call/drop/read costs, compares rounds, per-thread timestamps and the position of the initial_start read, including the first benchmark of a process (cold calibration).",
+     level_note="Trusted: Lean kernel; bench lab; real clocks are not modelled.", trusted=BENCH_TRUST)
+
+prop("C05", ["DivanModel.Props.C05"], BENCH_LABS,
+     level_text="Theorems for every sorted sample list and sample size: fastest/slowest = min/max sample / s, median = middle (mean of the two middle) / s, mean = total / (s*len), hence fastest <= median, mean <= slowest; figures are picked through the index of the sample that supplied the time; per-input counter = sum/s; zero samples give all-zero time statistics. The bench lab compares the complete Stats (integer picoseconds; allocation figures as exact IEEE doubles recomputed in software) and requires that computing statistics never panics.",
+     level_note="Trusted: Lean kernel; bench lab; SoftFloat (round-to-nearest-even on non-negative normal doubles) is driver code, validated against the implementation on every case. Ties between differently-tallied samples are avoided by the generator (sort_unstable's choice is implementation-defined).",
+     trusted=BENCH_TRUST)
+
+prop("C19", ["DivanModel.Props.C19"], BENCH_LABS,
+     level_text="Theorems: a run without sample_size starts at 1; after j rounds at or below 100 whole multiples of the precision and one above, sizes were 1,2,...,2^j, the mode is collect(2^j), exactly the T samples of that round are held and the remaining counter is n-T; every tuning round keeps only its own samples; max_time stops tuning. The bench lab runs tuned benchmarks under three precisions (1, 250, 999 ps) with constant/growing costs and max_time cutting tuning short.",
+     level_note="Trusted: Lean kernel; bench lab; Timer::precision() is calibrated once per lab process on a uniform-step virtual clock (C11).", trusted=BENCH_TRUST)
+
+prop("C08", ["DivanModel.Props.C08"], BENCH_LABS,
+     level_text="Theorems on a transition system with any number of threads, every interleaving and panics in any work phase: in every reachable state, while a thread is in its timed section all threads have finished generating and clearing and none has started dropping; with the repair (an unwinding thread keeps its barrier appointments) every non-final reachable state has a successor (no hang); a step of one thread changes no other thread. The bench lab runs T in 2..4 threads with scripted panics at (thread, call) points, a watchdog for hangs, per-thread allocation figures and the overlap conditions evaluated on the global event order.",
+     level_note="Trusted: Lean kernel; bench lab; std::sync::Barrier semantics (release wait k only when all arrived) are the model's assumption; interleavings are those the OS scheduler produced (the theorem covers all, the lab samples).",
+     trusted=BENCH_TRUST)
